@@ -28,6 +28,9 @@ TABLES["bob-held-by-another-session"] = [M.UserSpec(None), M.UserSpec("bob", "pw
 TABLES["empty-password"] = [M.UserSpec(None), M.UserSpec("eve", "", home="/d"), M.UserSpec("bob", "pw", home="/home")]
 # a password with non-ASCII characters: look-alikes that differ only there are wrong passwords
 TABLES["unicode-password"] = [M.UserSpec("carol", "pässwörd", home="/d"), M.UserSpec(None)]
+# the anonymous account (any unknown name) can have a password as well - `python -m aioftp --pass x` builds this table
+TABLES["anonymous-with-password"] = [M.UserSpec(None, "pw", home="/d")]
+TABLES["anonymous-with-password+alice"] = [M.UserSpec("alice", None, home="/home"), M.UserSpec(None, "pw", home="/d")]
 HELD = {"bob-held-by-another-session": "bob"}
 LOGIN = ["USER anonymous", "USER alice", "USER bob", "USER nobody", "USER eve", "USER carol", "USER", "PASS pw", "PASS wrong", "PASS",
          "PASS pässwörd", "PASS påsswørd", "PASS p?ssw?rd", "PASS password",
